@@ -285,6 +285,8 @@ theorem addModel_trefs (s : Scene) (w w' : W) (md : Model) (hw : TRefs w) (h : a
       · split at h
         · cases h
         · rename_i r hr
+          have hgate := gate_ok s w md _ r hr
+          have hr := hgate.2
           have h1 : TRefs r.1 := by
             unfold addModelMaterial at hr
             split at hr
